@@ -11,7 +11,8 @@ from . import common
 def main():
     import gc, logging
     logging.disable(logging.WARNING)      # catch(warn=True) logs every dropped example
-    gc.disable()          # see common.tick()
+    if not os.environ.get('VERIF_AUTO_GC'):
+        gc.disable()          # see common.tick()
     ap = argparse.ArgumentParser()
     ap.add_argument('prop')
     ap.add_argument('--tier', default=os.environ.get('VERIF_TIER') or 'quick', choices=['quick', 'thorough'])
@@ -140,7 +141,8 @@ def main():
     print(f'{prop}: tier={args.tier} proof_ok={ps["ok"]} obligations={ps["obligations"]} '
           f'cases={cov.get("programs", cov.get("evaluations"))} violations={len(violations)} '
           f'known={len(seen)} wall={time.time() - t0:.1f}s')
-    sys.exit(rc)
+    sys.stdout.flush(); sys.stderr.flush()
+    os._exit(rc)          # no interpreter finalisation: after a detected deadlock wedged (daemon) threads of the implementation are still around
 
 
 if __name__ == '__main__':
